@@ -492,7 +492,7 @@ def clauses(tier):
             "encode a drawn program, decode with read_signal (stream, and a .sph path for ~1/6), compare all samples and "
             "the shape; non-trivial = >= 2 distinct block commands, >= 2 blocks per channel and one of "
             "{QLPC, BITSHIFT>0, BLOCKSIZE, ZERO, multi-channel}; distinct by the whole program",
-            programs, quick=1500, thorough=120000, sample_fmt=_fmt,
+            programs, quick=1100, thorough=120000, sample_fmt=_fmt,
          fuzz_runs=2500),
         Clause(
             "vectors", check_vector,
